@@ -161,6 +161,32 @@ def _inline_pred(ctx, fn, e, depth):
     return None
 
 
+def swap_eq(form):
+    """`A == B` -> `B == A` (also `is`), when the operator occurs once at bracket depth 0; else None."""
+    for op in (" == ", " is "):
+        depth, hits = 0, []
+        for i, ch in enumerate(form):
+            if ch in "([{":
+                depth += 1
+            elif ch in ")]}":
+                depth -= 1
+            elif depth == 0 and form.startswith(op, i):
+                hits.append(i)
+        if len(hits) == 1 and not (op == " is " and form[hits[0] + 4:].startswith("None")):
+            i = hits[0]
+            return form[i + len(op):] + op + form[:i]
+    return None
+
+
+def both_orders(forms):
+    out = set(forms)
+    for f, p in forms:
+        sw = swap_eq(f)
+        if sw:
+            out.add((sw, p))
+    return out
+
+
 def guard_forms(ctx, fn, cfg_node, kinds=ALL_KINDS, kill=True):
     """Normal forms of all guards at a CFG node: set of (form, polarity)."""
     g = ctx.guards(fn, kinds, kill)
@@ -174,7 +200,7 @@ def guard_forms(ctx, fn, cfg_node, kinds=ALL_KINDS, kill=True):
             form, p = key, pol
         out.add((form, p))
         out.add((key, pol))
-    return out
+    return both_orders(out)
 
 
 def _test_node_for(ctx, fn, expr):
@@ -370,7 +396,7 @@ def return_conditions(ctx, fn, max_paths=64):
                 conds.append((form, pol))
             if n.kind == "stmt" and isinstance(n.ast, ast.Return):
                 ret = n.ast.value
-        out.append((ret, frozenset(conds), path))
+        out.append((ret, frozenset(both_orders(conds)), path))
     ctx.counters["paths"] += count
     return out
 
